@@ -29,7 +29,12 @@ AXIS_DIRS = [
 @st.composite
 def direction(draw, R=3):
     """small non-zero integer vector; the 26 lattice directions are weighted up"""
-    mode = draw(st.integers(0, 5))
+    mode = draw(st.integers(0, 6))
+    if mode == 6:
+        # short vectors (length well below 1): absolute thresholds on unnormalised directions show up here
+        q = tuple(F(draw(st.integers(-3, 3)), 4) for _ in range(3))
+        assume(any(q))
+        return q
     if mode <= 1:
         d = draw(st.sampled_from(AXIS_DIRS))
     else:
